@@ -693,4 +693,13 @@ def r06_6(ctx):
     return o
 
 
-RULES = [r06_1, r06_2, r06_3, r06_4, r06_5, r06_6]
+def r06_7(ctx):
+    from rules import C01
+    o = C01.r01_3(ctx)
+    o.rule = "R06.7"
+    o.text = ("every boundary curve of one operand is cut against every boundary curve of the other (all pairs, not "
+              "index-wise, not only the first) before any piece is selected (same analysis as R01.3)")
+    return o
+
+
+RULES = [r06_1, r06_2, r06_3, r06_4, r06_5, r06_6, r06_7]
